@@ -5689,7 +5689,8 @@ func (t *Terminal) Loop() error {
 				before := t.offset
 				t.constrain()
 				if before != t.offset {
-					t.offset = before
+					// Still an index into the list: other actions of the same key may use it
+					t.offset = util.Constrain(before, 0, util.Max(0, t.merger.Length()-1))
 					if t.layout == layoutReverse {
 						diff *= -1
 					}
